@@ -4,9 +4,14 @@ Leg A: spec/LevelMC.tla (TLC walks the control grid of the model spec/Level.tla 
        property predicates on the model's bytes; thorough tier adds the full 0..127 resolution).
 Leg B: the same predicates evaluated by TLC (spec/LevelTrace.tla) on total-level bytes recorded from
        the real library by harness/drive_level (full 128-point sweeps of every control, all five models).
+       Congestion histories (more notes than chip channels, automatic arpeggio on / off, time passing): EVERY key-on of a
+       chip channel is judged - the TL registers in force must be the levels of the note the channel is keyed for
+       (Level.tla part 3; LevelMC scope `share` model-checks the time-shared channel with the take-over rule of /repo 5cd89c0:
+       a key-on for a note the registers were not levelled for re-levels; TakeOver = FALSE, the code as written before, is refuted).
 Leg C: recorded bytes = bytes predicted by the exact transcription (refinement, reported as MODEL-DRIFT).
 Set VERIF_JOBS to limit the number of parallel workers (default: all cores)."""
 import json, os, random, re, time
+import concurrent.futures as cf
 import checks
 import vcommon as vc, vtrace, gen_level
 
@@ -22,6 +27,9 @@ CONSTANTS
   Lite = %(lite)s
   EmitDepth = %(emit)d
   MaxDepth = %(depth)d
+  ShareN = %(share)d
+  ArpRelevel = %(relevel)s
+  TakeOver = %(takeover)s
 INVARIANT NoBad
 %(extra)s
 CHECK_DEADLOCK FALSE
@@ -36,7 +44,8 @@ MGRID = [0, 1, 64, 127]
 ASSUME = [
     "register tap hook H1 sees every chip write (OPN2::writeReg/writeRegI); harness/vh.hpp Tap reports a TL update when register 0x4C+ch is written, with the shadow of all four TL registers",
     "harness/drive_level.cpp only drives the public API (rt calls, SysEx F0 7F 7F 04 01 ll mm F7, opn2_setVolumeRangeModel/ScaleModulators/FullRangeBrightness) and echoes the commands faithfully",
-    "instrument TL bytes, controller values and velocities are 7-bit (0..127) as in MIDI / the OPN2 register; the time never advances inside an execution",
+    "instrument TL bytes, controller values and velocities are 7-bit (0..127) as in MIDI / the OPN2 register; the time only advances in the congestion histories (gen = opn2_generate)",
+    "key-ons: the note hook (opn2_setNoteHook) fires right after OPN2::noteOn wrote 0x28 and names chip channel, tone, patch and velocity; the harness finds the MIDI channel among the active notes holding that chip channel (keys are distinct in the generated histories; an ambiguous key-on is counted, not judged) and reports the TL registers in force; the note's loudness inputs come from the specification's own record",
     "TLC 1.8 evaluates Level/LevelTrace correctly; the Generic model's 63 thresholds in Level.tla were computed off-line from the documented formula",
 ]
 
@@ -52,10 +61,11 @@ def jobs():
         return vc.NCPU
 
 
-def mc_cfg(name, grid, mgrid, bgrid, vms=(1, 2, 3, 4, 5), frbs=(False,), initall=False, dirs=(1,), lite=False, emit=0, depth=100000, sim=False):
+def mc_cfg(name, grid, mgrid, bgrid, vms=(1, 2, 3, 4, 5), frbs=(False,), initall=False, dirs=(1,), lite=False, emit=0, depth=100000, sim=False, share=0, relevel=True, takeover=True):
     return checks.write_cfg(name, LEVEL_CFG % {
         "grid": tla_set(grid), "mgrid": tla_set(mgrid), "bgrid": tla_set(bgrid), "vms": tla_set(vms), "frbs": tla_set(list(frbs)),
         "initall": "TRUE" if initall else "FALSE", "dirs": tla_set(dirs), "lite": "TRUE" if lite else "FALSE", "emit": emit, "depth": depth,
+        "share": share, "relevel": "TRUE" if relevel else "FALSE", "takeover": "TRUE" if takeover else "FALSE",
         "extra": "CONSTRAINT Emit" if sim else "CONSTRAINT DepthBound\nVIEW View"})
 
 
@@ -72,12 +82,21 @@ def model_phase(tier):
         # full resolution of the property's quantifier: v, c, e in 0..127, master volume in {0,1,64,127}, per model
         for vm in (1, 2, 3, 4, 5):
             scopes.append(("full-vm%d" % vm, dict(grid=list(range(128)), mgrid=MGRID, bgrid=[127], vms=(vm,), lite=True), 2400))
-    for (name, kw, to) in scopes:
-        cfg = mc_cfg("LevelMC_%s_%s.cfg" % (tier, name), **kw)
-        r = vc.run_tlc("LevelMC", cfg=cfg, timeout=to, heap="16g", workers=jobs(), tag="LevelMC-" + name)
-        r.scope = {"name": name, "grid": len(kw["grid"]), "mgrid": kw["mgrid"], "bgrid": len(kw["bgrid"]), "lite": bool(kw.get("lite")),
-                   "vms": list(kw.get("vms", (1, 2, 3, 4, 5)))}
-        runs.append(r)
+    # one chip channel held by up to `share` notes of one patch (Level.tla part 3): joins, CC7 / CC11 / master volume changes,
+    # releases and arpeggio ticks; every key-on finds the owner's levels.  A small model: it runs beside the grid walks.
+    skw = dict(grid=[0, 127] if q else [0, 64, 127], mgrid=[0, 127], bgrid=[127], share=3)
+    share_cfg = mc_cfg("LevelMC_%s_share.cfg" % tier, **skw)
+    with cf.ThreadPoolExecutor(max_workers=1) as pool:
+        fut = pool.submit(vc.run_tlc, "LevelMC", cfg=share_cfg, timeout=2400, heap="8g", workers=max(1, min(4, jobs() // 4)), tag="LevelMC-share")
+        for (name, kw, to) in scopes:
+            cfg = mc_cfg("LevelMC_%s_%s.cfg" % (tier, name), **kw)
+            r = vc.run_tlc("LevelMC", cfg=cfg, timeout=to, heap="16g", workers=jobs(), tag="LevelMC-" + name)
+            r.scope = {"name": name, "grid": len(kw["grid"]), "mgrid": kw["mgrid"], "bgrid": len(kw["bgrid"]), "lite": bool(kw.get("lite")),
+                       "vms": list(kw.get("vms", (1, 2, 3, 4, 5)))}
+            runs.append(r)
+        r = fut.result()
+    r.scope = {"name": "share", "grid": len(skw["grid"]), "mgrid": skw["mgrid"], "bgrid": 1, "lite": False, "vms": [1, 2, 3, 4, 5], "holders": skw["share"]}
+    runs.append(r)
     return runs
 
 
@@ -127,8 +146,10 @@ def check_c11(pid, tier, replay):
     if not q:
         ex += list(gen_level.exhaustive(3, vms=(1, 3), algs=(4,)))
     rnd = [gen_level.random_history(rng, 50 if q else 90) for _ in range(400 if q else 4000)]
+    # more notes than chip channels (automatic arpeggio on / off), time passing: every key-on judged for the note that owns the channel
+    cong = gen_level.congestion_histories(random.Random(vc.seed() * 104729 + 11), 240 if q else 2400, longer=not q, bends=True)
     # interleave the expensive sweep histories with the cheap ones so that the chunks are balanced
-    cheap = beh + bound + ex + rnd
+    cheap = beh + bound + ex + rnd + cong
     random.Random(vc.seed() * 31 + 11).shuffle(cheap)
     histories = []
     step = max(1, len(cheap) // max(1, len(sweeps)))
@@ -147,6 +168,12 @@ def check_c11(pid, tier, replay):
         "states": sum(r.distinct for r in mruns), "transitions": sum(r.generated for r in mruns),
         "traces_validated_against_impl": len(histories), "records_validated": stats["records"],
         "sweep_histories": len(sweeps), "boundary_histories": len(bound), "exhaustive_short_histories": len(ex), "random_histories": len(rnd),
+        "congestion_histories": len(cong),
+        "key_ons": {"judged": counters.get("kon_judged", 0), "not_attributed": counters.get("kon_skipped", 0),
+                    "on_shared_chip_channels": counters.get("kon_shared", 0), "hand_overs_between_notes": counters.get("kon_turns", 0),
+                    "owner_with_a_zero_control": counters.get("kon_zero", 0), "monotone_comparisons": counters.get("kon_pairs", 0),
+                    "monotone_comparisons_with_different_bytes": counters.get("kon_strict", 0), "differ_from_model": counters.get("kon_drifted", 0),
+                    "executions_with_automatic_arpeggio": counters.get("arp_execs", 0), "time_passing_calls": counters.get("gens", 0)},
         "model_generated_behaviours_replayed": len(beh),
         "recorded_sweeps": counters.get("sweeps", 0), "recorded_full_128_point_sweeps": counters.get("sweeps128", 0),
         "recorded_sweep_points": counters.get("points", 0),
@@ -156,7 +183,8 @@ def check_c11(pid, tier, replay):
         "evaluations": counters.get("touches", 0), "distinct_nontrivial": counters.get("mono_strict", 0) + counters.get("bright_strict", 0),
         "rule": "one evaluation = one note re-levelled by one call (4 TL bytes) judged by range/zero/modulator and, against the previous "
                 "levelling of the same note, by the monotone/brightness predicates; distinct_nontrivial = comparisons where the bytes changed",
-        "samples": checks.sample_histories(rnd, 1, 12) + checks.sample_histories(sweeps, 1, 10) + checks.sample_histories(beh, 1, 12),
+        "samples": checks.sample_histories(rnd, 1, 12) + checks.sample_histories(sweeps, 1, 10) + checks.sample_histories(beh, 1, 12)
+                   + checks.sample_histories(cong, 1, 40),
         "model_runs": [{"scope": r.scope, "ok": r.ok, "violation": r.violation, "distinct": r.distinct, "generated": r.generated,
                         "depth": r.depth, "wall_s": round(r.wall, 1)} for r in mruns],
         "exhaustive": False,
